@@ -19,7 +19,7 @@ def gaps(draw, k, kinds=None, max_ratio=1e3):
         return kind, []
     if kind == "unit":
         return kind, [1.0] * k
-    if kind == "hours":
+    if kind in ("hours", "epoch"):
         return kind, [1.0] * k
     if kind == "fstep":
         h = draw(fl(1e-3, 1e3))
@@ -51,6 +51,11 @@ def xs(draw, m, kinds=None, max_ratio=1e3, allow_int=True, offsets=True):
     if kind == "hours":
         x = [float(i) for i in range(m)]
         return dict(kind=kind, x=x, int=False)
+    if kind == "epoch":
+        # unix-time like abscissae: large magnitude, exact integer steps
+        x0 = 1.7e9 + draw(st.integers(0, 10 ** 6))
+        step = draw(st.sampled_from([1.0, 60.0, 3600.0]))
+        return dict(kind=kind, x=[x0 + step * i for i in range(m)], int=False)
     if kind == "fstep":
         x0 = draw(fl(-1e3, 1e3))
         h = g[0] if g else 1.0
